@@ -14,7 +14,8 @@ RULE = ('histories of up to N edit operations (delete, replace_with, parent.remo
         'returns exactly the model\'s occurrences (by text); descendants equal the closure of contents and every parent '
         'chain ends at the root; the text view equals the model\'s text leaves (modulo blank leaves). Non-trivial = the '
         'history edits inside or next to inserted material, or edits a node that has an identical twin; distinct by '
-        '(source, operation list)')
+        '(source, operation list)'
+        '. Histories also insert 17..40 items in one call and edit inserted text nodes through the wrapper kept at insertion time; search is also checked by the current opening delimiter of every environment')
 ASSUMPTIONS = [
     '\\item is never a rename source or target (content support is decided by the name "item")',
     'parent.remove(child) is only exercised for children of the parent\'s own content list',
